@@ -1,5 +1,8 @@
 package main
 
+// One long-lived SMT-LIB2 solver process per worker (z3 -in). No set-logic (see DESIGN §2.3);
+// any "(error" line makes the query inconclusive.
+
 import (
 	"bufio"
 	"fmt"
@@ -11,26 +14,38 @@ import (
 )
 
 type Solver struct {
-	cmd     *exec.Cmd
-	in      io.WriteCloser
-	out     *bufio.Reader
-	bank    *TermBank
-	depth   int
-	Queries int
-	Time    time.Duration
+	cmd      *exec.Cmd
+	in       *bufio.Writer
+	inc      io.WriteCloser
+	out      *bufio.Reader
+	depth    int
+	Queries  int
+	Sat      int
+	Unsat    int
+	Unk      int
+	Errors   int
+	Time     time.Duration
 	declared map[string]bool
-	log     io.Writer
+	log      io.Writer
+	emitted  map[int]bool
+	dead     bool
 }
 
-func NewSolver(bank *TermBank, timeoutMs int) (*Solver, error) {
-	cmd := exec.Command("z3", "-in", fmt.Sprintf("-t:%d", timeoutMs))
+func NewSolver(bin string, timeoutMs int) (*Solver, error) {
+	var cmd *exec.Cmd
+	switch {
+	case strings.Contains(bin, "cvc5"):
+		cmd = exec.Command(bin, "--incremental", "--produce-models", fmt.Sprintf("--tlimit-per=%d", timeoutMs), "--lang=smt2")
+	default:
+		cmd = exec.Command(bin, "-in", fmt.Sprintf("-t:%d", timeoutMs))
+	}
 	in, _ := cmd.StdinPipe()
 	out, _ := cmd.StdoutPipe()
 	cmd.Stderr = cmd.Stdout
 	if err := cmd.Start(); err != nil {
 		return nil, err
 	}
-	s := &Solver{cmd: cmd, in: in, out: bufio.NewReader(out), bank: bank, declared: map[string]bool{}}
+	s := &Solver{cmd: cmd, inc: in, in: bufio.NewWriterSize(in, 1<<16), out: bufio.NewReader(out), declared: map[string]bool{}, emitted: map[int]bool{}}
 	s.send("(set-option :global-declarations true)")
 	s.send("(set-option :produce-models true)")
 	return s, nil
@@ -40,15 +55,15 @@ func (s *Solver) send(line string) {
 	if s.log != nil {
 		fmt.Fprintln(s.log, line)
 	}
-	io.WriteString(s.in, line+"\n")
+	s.in.WriteString(line)
+	s.in.WriteByte('\n')
 }
 
 // emit makes sure t and all its sub-terms are defined in the solver.
 func (s *Solver) emit(t *Term) {
-	if t.emitted {
+	if t.op == OConst || s.emitted[t.id] {
 		return
 	}
-	// iterative post-order to avoid deep recursion
 	type fr struct {
 		t *Term
 		i int
@@ -56,21 +71,20 @@ func (s *Solver) emit(t *Term) {
 	st := []fr{{t, 0}}
 	for len(st) > 0 {
 		f := &st[len(st)-1]
-		if f.t.emitted {
+		if f.t.op == OConst || s.emitted[f.t.id] {
 			st = st[:len(st)-1]
 			continue
 		}
 		if f.i < len(f.t.args) {
 			a := f.t.args[f.i]
 			f.i++
-			if !a.emitted {
+			if a.op != OConst && !s.emitted[a.id] {
 				st = append(st, fr{a, 0})
 			}
 			continue
 		}
 		x := f.t
 		switch x.op {
-		case OConst:
 		case OVar:
 			if !s.declared[x.name] {
 				s.declared[x.name] = true
@@ -79,7 +93,7 @@ func (s *Solver) emit(t *Term) {
 		default:
 			s.send(fmt.Sprintf("(define-fun t%d () %s %s)", x.id, x.sort, x.body()))
 		}
-		x.emitted = true
+		s.emitted[x.id] = true
 		st = st[:len(st)-1]
 	}
 }
@@ -98,8 +112,10 @@ func (s *Solver) Assert(t *Term) {
 }
 
 func (s *Solver) readLine() string {
+	s.in.Flush()
 	l, err := s.out.ReadString('\n')
 	if err != nil {
+		s.dead = true
 		return "(error \"solver died: " + err.Error() + "\")"
 	}
 	return strings.TrimSpace(l)
@@ -110,20 +126,42 @@ func (s *Solver) Check() string {
 	t0 := time.Now()
 	s.send("(check-sat)")
 	r := s.readLine()
+	for strings.HasPrefix(r, "(error") || strings.HasPrefix(r, "WARNING") || r == "" {
+		if strings.HasPrefix(r, "(error") {
+			s.Errors++
+			fmt.Println("SOLVER ERROR:", r)
+			if s.dead {
+				s.Queries++
+				s.Unk++
+				return "unknown"
+			}
+			// the check-sat answer still follows; consume it and report inconclusive
+			r2 := s.readLine()
+			_ = r2
+			s.Queries++
+			s.Unk++
+			s.Time += time.Since(t0)
+			return "unknown"
+		}
+		r = s.readLine()
+	}
 	s.Queries++
 	s.Time += time.Since(t0)
-	if r != "sat" && r != "unsat" {
-		if strings.HasPrefix(r, "(error") {
-			fmt.Println("SOLVER ERROR:", r)
-		}
+	switch r {
+	case "sat":
+		s.Sat++
+	case "unsat":
+		s.Unsat++
+	default:
+		s.Unk++
 		return "unknown"
 	}
 	return r
 }
 
 // Model returns values for the given variables (must be called right after a sat Check).
-func (s *Solver) Model(vars []*Term) map[string]*big.Int {
-	m := map[string]*big.Int{}
+func (s *Solver) Model(vars []*Term) *Model {
+	m := &Model{bv: map[string]uint64{}, ints: map[string]*big.Int{}}
 	if len(vars) == 0 {
 		return m
 	}
@@ -134,7 +172,6 @@ func (s *Solver) Model(vars []*Term) map[string]*big.Int {
 	}
 	sb.WriteString("))")
 	s.send(sb.String())
-	// read until parens balance
 	depth := 0
 	var all strings.Builder
 	for {
@@ -145,24 +182,33 @@ func (s *Solver) Model(vars []*Term) map[string]*big.Int {
 			break
 		}
 	}
-	txt := all.String()
-	// parse pairs "(name #x.. )" or "(name #b..)" or "(name true)"
-	txt = strings.NewReplacer("(", " ( ", ")", " ) ").Replace(txt)
+	txt := strings.NewReplacer("(", " ( ", ")", " ) ").Replace(all.String())
 	toks := strings.Fields(txt)
-	for i := 0; i+1 < len(toks); i++ {
-		if toks[i] == "(" && i+2 < len(toks) && toks[i+1] != "(" {
-			name, val := toks[i+1], toks[i+2]
-			switch {
-			case strings.HasPrefix(val, "#x"):
-				v, _ := new(big.Int).SetString(val[2:], 16)
-				m[name] = v
-			case strings.HasPrefix(val, "#b"):
-				v, _ := new(big.Int).SetString(val[2:], 2)
-				m[name] = v
-			case val == "true":
-				m[name] = big.NewInt(1)
-			case val == "false":
-				m[name] = big.NewInt(0)
+	// grammar: ( ( name value ) ... ), value = #x.. | #b.. | true | false | N | ( - N )
+	for i := 0; i+2 < len(toks); i++ {
+		if toks[i] != "(" || toks[i+1] == "(" || toks[i+1] == ")" {
+			continue
+		}
+		name, val := toks[i+1], toks[i+2]
+		switch {
+		case strings.HasPrefix(val, "#x"):
+			v, _ := new(big.Int).SetString(val[2:], 16)
+			m.bv[name] = v.Uint64()
+		case strings.HasPrefix(val, "#b"):
+			v, _ := new(big.Int).SetString(val[2:], 2)
+			m.bv[name] = v.Uint64()
+		case val == "true":
+			m.bv[name] = 1
+		case val == "false":
+			m.bv[name] = 0
+		case val == "(" && i+4 < len(toks) && toks[i+3] == "-":
+			v, ok := new(big.Int).SetString(toks[i+4], 10)
+			if ok {
+				m.ints[name] = v.Neg(v)
+			}
+		default:
+			if v, ok := new(big.Int).SetString(val, 10); ok {
+				m.ints[name] = v
 			}
 		}
 	}
@@ -171,6 +217,7 @@ func (s *Solver) Model(vars []*Term) map[string]*big.Int {
 
 func (s *Solver) Close() {
 	s.send("(exit)")
-	s.in.Close()
+	s.in.Flush()
+	s.inc.Close()
 	s.cmd.Wait()
 }
